@@ -276,5 +276,223 @@ theorem matSet_col_sound {rows res : List (List Val)} {i v : Val} {jt : LinComb}
 
 end sound
 
+/-! ## rows of different lengths are refused, never zipped to the shorter one -/
+
+theorem mapM'_length {α β : Type} {f : α → M β} : ∀ (xs : List α) {s s' : St} {rs : List β},
+    mapM' f xs s = .ok (rs, s') → rs.length = xs.length
+  | [], _, _, _, h => by obtain ⟨rfl, -⟩ := mapM'_nil_ok h; rfl
+  | x :: xs, _, _, _, h => by
+    obtain ⟨y, s1, ys, -, h2, rfl⟩ := mapM'_cons_ok h
+    simp [mapM'_length xs h2]
+
+theorem zipWithM'_length {f : Val → Val → M Val} : ∀ (ts gs : List Val) {s s' : St} {rs : List Val},
+    zipWithM' f ts gs s = .ok (rs, s') → rs.length = min ts.length gs.length
+  | [], gs, _, _, _, h => by obtain ⟨rfl, -⟩ := zipWithM'_nil_ok (Or.inl rfl) h; simp
+  | t :: ts, [], _, _, _, h => by obtain ⟨rfl, -⟩ := zipWithM'_nil_ok (Or.inr rfl) h; simp
+  | t :: ts, g :: gs, _, _, _, h => by
+    obtain ⟨y, s1, ys, -, h2, rfl⟩ := zipWithM'_cons_ok h
+    simp [zipWithM'_length ts gs h2]
+
+theorem addRows_length {a b r : List Val} {s s' : St} (h : addRows a b s = .ok (r, s')) :
+    a.length = b.length ∧ r.length = a.length := by
+  have hl := addRows_ok_length h
+  unfold addRows at h
+  rw [if_pos hl] at h
+  exact ⟨hl, by rw [zipWithM'_length _ _ h, hl, Nat.min_self]⟩
+
+/-- a completed fold of `Array.__add__` over products: every product, and the result, had the length of the accumulator -/
+theorem foldlM_addRows_length : ∀ (ps : List (List Val)) {acc r : List Val} {s s' : St},
+    ps.foldlM (fun acc x => addRows acc x) acc s = .ok (r, s') → r.length = acc.length ∧ ∀ p ∈ ps, p.length = acc.length
+  | [], _, _, _, _, h => by
+    simp only [List.foldlM_nil] at h
+    obtain ⟨rfl, -⟩ := pure_ok.mp h
+    exact ⟨rfl, fun p hp => by cases hp⟩
+  | q :: ps, acc, r, s, s', h => by
+    rw [List.foldlM_cons] at h
+    obtain ⟨a1, s1, h1, h2⟩ := bind_ok.mp h
+    obtain ⟨hl, hr⟩ := addRows_length h1
+    obtain ⟨e1, e2⟩ := foldlM_addRows_length ps h2
+    refine ⟨by rw [e1, hr], fun p hp => ?_⟩
+    rcases List.mem_cons.mp hp with rfl | hp
+    · exact hl.symm
+    · rw [e2 p hp, hr]
+
+theorem mapM'_scaleRow_length : ∀ (crs : List (LinComb × List Val)) {s s' : St} {ps : List (List Val)},
+    mapM' (fun (cr : LinComb × List Val) => scaleRow cr.1 cr.2) crs s = .ok (ps, s') →
+    ps.map List.length = crs.map (fun cr => cr.2.length)
+  | [], _, _, _, h => by obtain ⟨rfl, -⟩ := mapM'_nil_ok h; rfl
+  | cr :: crs, _, _, _, h => by
+    obtain ⟨y, s1, ys, h1, h2, rfl⟩ := mapM'_cons_ok h
+    unfold scaleRow at h1
+    simp [mapM'_length _ h1, mapM'_scaleRow_length crs h2]
+
+/-- **a completed `lin_comb(ixs, rows)` over as many selectors as rows had rows of one length**: a ragged matrix is refused -/
+theorem linCombRows_rect {ixs : List LinComb} {rows : List (List Val)} {r : List Val} {s s' : St}
+    (hl : ixs.length = rows.length) (h : linCombRows ixs rows s = .ok (r, s')) :
+    ∀ row ∈ rows, row.length = r.length := by
+  unfold linCombRows at h
+  obtain ⟨prods, s1, h1, h2⟩ := bind_ok.mp h
+  have hlen := mapM'_scaleRow_length _ h1
+  have hz : (ixs.zip rows).map (fun cr => cr.2.length) = rows.map List.length := by
+    have := congrArg (List.map List.length) (List.map_snd_zip (l₁ := ixs) (l₂ := rows) (by omega))
+    simpa [List.map_map, Function.comp_def] using this
+  rw [hz] at hlen
+  cases prods with
+  | nil => exact (raise_ok.mp h2).elim
+  | cons p ps =>
+    simp only at h2
+    obtain ⟨first, s2, h3, h4⟩ := bind_ok.mp h2
+    have hf : first.length = p.length := by unfold addZeroRow at h3; exact mapM'_length _ h3
+    obtain ⟨hr, hps⟩ := foldlM_addRows_length ps h4
+    intro row hrow
+    have hm : row.length ∈ rows.map List.length := List.mem_map.mpr ⟨row, hrow, rfl⟩
+    rw [← hlen] at hm
+    obtain ⟨q, hq, e⟩ := List.mem_map.mp hm
+    rw [← e]
+    rcases List.mem_cons.mp hq with rfl | hq
+    · rw [hr, hf]
+    · rw [hps q hq, hr]
+
+/-- a completed row read at a secret index: the matrix was rectangular (every row has the length of the row returned) -/
+theorem rowRead_rect {rows : List (List Val)} {it : LinComb} {r : List Val} {s s' : St} (hg : s.guard = none)
+    (h : rowRead rows it s = .ok (r, s')) : ∀ row ∈ rows, row.length = r.length := by
+  unfold rowRead at h
+  obtain ⟨ixs, s1, h1, h2⟩ := bind_ok.mp h
+  obtain ⟨-, hl, -⟩ := arrayIxs_ext hg h1
+  exact linCombRows_rect hl h2
+
+theorem iteRow_mismatch {c : LinComb} {t f : List Val} {s : St} (h : t.length ≠ f.length) :
+    iteRow c t f s = .error .value := by
+  unfold iteRow
+  exact bind_error (subRows_mismatch h)
+
+/-- `self[item] = value` for a secret `item`: a value whose length is not the width of the matrix is refused (the rows
+are objects other than the value) -/
+theorem rowsWrite_mismatch {rows : List (List Val)} {it : LinComb} {vals : List Val} {s : St} {w : Nat}
+    (hg : s.guard = none) (hne : rows ≠ []) (hw : ∀ row ∈ rows, row.length = w) (hv : vals.length ≠ w) :
+    ∀ x, rowsWrite (rows.map fun r => (false, r)) it vals s ≠ .ok x := by
+  rintro ⟨res, s'⟩ h
+  unfold rowsWrite at h
+  obtain ⟨ixs, s1, h1, h2⟩ := bind_ok.mp h
+  obtain ⟨-, hl, -⟩ := arrayIxs_ext hg h1
+  cases rows with
+  | nil => exact hne rfl
+  | cons r0 rest =>
+    cases ixs with
+    | nil => simp at hl
+    | cons c cs =>
+      simp only [List.map_cons, List.zip_cons_cons] at h2
+      unfold rowsIte at h2
+      obtain ⟨x, s2, h3, -⟩ := bind_ok.mp h2
+      simp only [Bool.false_eq_true, if_false] at h3
+      rw [iteRow_mismatch (by rw [hw r0 List.mem_cons_self]; exact hv)] at h3
+      cases h3
+
+/-! ## empty dimensions: every index is outside -/
+
+end A2
+
+/-- the selector computation on a ZERO-LENGTH array never succeeds: `IndexError` with the error checks on; with them off
+`sum([])` is the int `0`, which has no `assert_eq` (`AttributeError`) -/
+theorem arrayIxs_empty {it : LinComb} {s : St} :
+    arrayIxs it 0 s = .error (if s.ignoreErrors then .attribute else .index) := by
+  unfold arrayIxs
+  change M.bind (arrayCheck it 0) _ s = _
+  unfold M.bind
+  cases hi : s.ignoreErrors with
+  | false =>
+    rw [arrayCheck_reject hi (by omega)]
+    rfl
+  | true =>
+    have : arrayCheck it 0 s = .ok ((), s) := by simp [arrayCheck, hi]
+    rw [this]
+    rfl
+
+theorem arrayGet_empty {it : LinComb} {s : St} :
+    arrayGet [] (.lc it) s = .error (if s.ignoreErrors then .attribute else .index) := by
+  unfold arrayGet
+  exact A2.bind_error arrayIxs_empty
+
+theorem arraySet_empty {it : LinComb} {v : Val} {s : St} :
+    arraySet [] (.lc it) v s = .error (if s.ignoreErrors then .attribute else .index) := by
+  unfold arraySet
+  exact A2.bind_error arrayIxs_empty
+
+namespace A2
+
+theorem rowRead_empty {it : LinComb} {s : St} :
+    rowRead [] it s = .error (if s.ignoreErrors then .attribute else .index) := by
+  unfold rowRead
+  exact bind_error arrayIxs_empty
+
+/-- the row selected by the first component (plain or secret, error checks on or off) in a matrix whose rows are all
+empty is empty -/
+theorem rowGet_empty {rows : List (List Val)} {i : Val} {r0 : List Val} {s s1 : St} (hr : ∀ row ∈ rows, row = [])
+    (h : rowGet rows i s = .ok (r0, s1)) : r0 = [] := by
+  have hn : ∀ row ∈ rows, NumRow row := fun row hrow => by rw [hr row hrow]; intro v hv; cases hv
+  have hw : ∀ row ∈ rows, row.length = 0 := fun row hrow => by rw [hr row hrow]; rfl
+  unfold rowGet at h
+  split at h
+  · rename_i k
+    cases hk : pyIndex rows.length k with
+    | none => simp only [hk] at h; exact (raise_ok.mp h).elim
+    | some n =>
+      simp only [hk] at h
+      cases hv : rows[n]? with
+      | none => simp only [hv] at h; exact (raise_ok.mp h).elim
+      | some v =>
+        simp only [hv] at h
+        obtain ⟨rfl, rfl⟩ := pure_ok.mp h
+        exact hr _ (List.mem_of_getElem? hv)
+  · unfold rowRead at h
+    obtain ⟨ixs, s2, -, h⟩ := bind_ok.mp h
+    exact List.eq_nil_of_length_eq_zero (linCombRows_length hn hw h)
+  · exact (raise_ok.mp h).elim
+
+/-- `a[i, j]` and `a[i, j] = v` with a secret column component on a matrix whose rows are all empty never complete -/
+theorem mat_empty_col {rows : List (List Val)} {i v : Val} {jt : LinComb} {s : St} (hr : ∀ row ∈ rows, row = []) :
+    (∀ x, matGet rows i (.lc jt) s ≠ .ok x) ∧ (∀ x, matSet rows i (.lc jt) v s ≠ .ok x) := by
+  constructor
+  · rintro ⟨r, s'⟩ h
+    unfold matGet at h
+    obtain ⟨r0, s1, h1, h2⟩ := bind_ok.mp h
+    rw [rowGet_empty hr h1, arrayGet_empty] at h2
+    cases h2
+  · rintro ⟨res, s'⟩ h
+    cases i with
+    | int k =>
+      unfold matSet at h
+      simp only at h
+      cases hk : pyIndex rows.length k with
+      | none => simp only [hk] at h; exact (raise_ok.mp h).elim
+      | some n =>
+        simp only [hk] at h
+        cases hv : rows[n]? with
+        | none => simp only [hv] at h; exact (raise_ok.mp h).elim
+        | some r0 =>
+          simp only [hv] at h
+          obtain ⟨r', s1, h1, -⟩ := bind_ok.mp h
+          rw [hr _ (List.mem_of_getElem? hv), arraySet_empty] at h1
+          cases h1
+    | lc it =>
+      unfold matSet at h
+      simp only at h
+      obtain ⟨r0, s1, h1, h2⟩ := bind_ok.mp h
+      have h1' : rowGet rows (.lc it) s = .ok (r0, s1) := by unfold rowGet; exact h1
+      obtain ⟨r', s2, h3, -⟩ := bind_ok.mp h2
+      rw [rowGet_empty hr h1', arraySet_empty] at h3
+      cases h3
+    | _ => unfold matSet at h; exact (raise_ok.mp h).elim
+
+/-- a secret ROW component on a matrix without rows: refused, reads and writes -/
+theorem mat_empty_row {it : LinComb} {j v : Val} {s : St} :
+    matGet [] (.lc it) j s = .error (if s.ignoreErrors then .attribute else .index) ∧
+    matSet [] (.lc it) j v s = .error (if s.ignoreErrors then .attribute else .index) := by
+  constructor
+  · unfold matGet rowGet
+    exact bind_error rowRead_empty
+  · unfold matSet
+    exact bind_error rowRead_empty
+
 end A2
 end Pysnark
